@@ -18,6 +18,8 @@ import (
 //	                 ByLineName - sort.Slice with comparator "line differs ? line< : name<" (directly or
 //	                              through one package-level helper with that body)
 //	                 OrderUnknown - anything else
+//	db_utils.go    processTableDepth: after a pass that leaves tables incomplete - always recurse (StopNever) / stop
+//	               when the pass completed no table and call placeUnorderedTables (StopNoProgress)
 //	postgres.go    writeModifySQLForAColumn: what the branch "new and old are both references" emits
 //	               (RefRefSilent / RefRefRetarget), and whether a retained autoincrement column is recorded as
 //	               bigint for the columns that refer to it (AutoVtPlain / AutoVtBigint);
@@ -319,6 +321,7 @@ func dbTables(repo string) (string, error) {
 	fmt.Fprintf(&b, "Definition pg_default : pgres := %s.\n", def)
 	fmt.Fprintf(&b, "Definition table_order : order_kind := %s.\n", orderKind(fns["GenerateDatabaseScriptCreate"], helpers))
 	fmt.Fprintf(&b, "Definition column_order : order_kind := %s.\n", orderKind(fns["writeCreateSQLForATable"], helpers))
+	fmt.Fprintf(&b, "Definition depth_stop : stop_kind := %s.\n", depthStop(fns["processTableDepth"], fns["placeUnorderedTables"]))
 	rr, av := modifyColumnShape(fns["writeModifySQLForAColumn"])
 	fmt.Fprintf(&b, "Definition delta_cfg : dcfg := DCfg %s %s %s.\n", rr, pkAddGuard(fns["writeModifySQLForATable"]), av)
 	return b.String(), nil
@@ -403,19 +406,52 @@ func modifyColumnShape(fd *ast.FuncDecl) (string, string) {
 		if !ok || exprText(ifs.Cond) != "(typeRefNew!=nil)" {
 			continue
 		}
-		// then-branch: datatype = ...; if typeRefOld == nil {...} [else if targets differ {...}]
+		// then-branch: ...; [if !isForeignKey {warn} else] if typeRefOld == nil {...} [else if targets differ {...}]
 		for _, s2 := range ifs.Body.List {
 			in, ok := s2.(*ast.IfStmt)
-			if !ok || exprText(in.Cond) != "(typeRefOld==nil)" {
+			if !ok {
+				continue
+			}
+			if exprText(in.Cond) == "!isForeignKey" {
+				// a reference that is not <table>.<column> (never produced by the C16 stream): only a warning
+				writes := false
+				ast.Inspect(in.Body, func(n ast.Node) bool {
+					if c, ok := n.(*ast.CallExpr); ok {
+						if ch := selChain(c.Fun); len(ch) > 0 && ch[len(ch)-1] == "WriteString" {
+							writes = true
+						}
+					}
+					return true
+				})
+				next, ok := in.Else.(*ast.IfStmt)
+				if writes || !ok {
+					continue
+				}
+				in = next
+			}
+			if exprText(in.Cond) != "(typeRefOld==nil)" {
 				continue
 			}
 			switch e := in.Else.(type) {
 			case nil:
 				rr = "RefRefSilent"
 			case *ast.IfStmt:
-				want := "((typeRefOld.GetRef().Path[0]!=typeRefNew.GetRef().Path[0])||(typeRefOld.GetRef().Path[1]!=typeRefNew.GetRef().Path[1]))"
+				want1 := "((typeRefOld.GetRef().Path[0]!=typeRefNew.GetRef().Path[0])||(typeRefOld.GetRef().Path[1]!=typeRefNew.GetRef().Path[1]))"
+				want2 := "((oldTable!=refTable)||(oldColumn!=refColumn))"
+				cond := exprText(e.Cond)
+				condOK := cond == want1
+				if cond == want2 {
+					// the four names must be the results of foreignKeyTarget on the old / new column type
+					var defs []string
+					for _, s3 := range ifs.Body.List {
+						if as, ok := s3.(*ast.AssignStmt); ok && len(as.Rhs) == 1 && len(as.Lhs) == 3 {
+							defs = append(defs, exprText(as.Lhs[0])+","+exprText(as.Lhs[1])+"="+exprText(as.Rhs[0]))
+						}
+					}
+					condOK = strings.Join(defs, ";") == "refTable,refColumn=foreignKeyTarget(attrTypeNew);oldTable,oldColumn=foreignKeyTarget(attrTypeOld)"
+				}
 				fm := writtenFormats(e.Body)
-				if exprText(e.Cond) == want && e.Else == nil && len(fm) == 3 &&
+				if condOK && e.Else == nil && len(fm) == 3 &&
 					strings.HasPrefix(fm[0], "ALTER TABLE %s DROP CONSTRAINT %s;") &&
 					strings.HasPrefix(fm[1], "ALTER TABLE %s ALTER COLUMN %s TYPE %s;") &&
 					strings.HasPrefix(fm[2], "ALTER TABLE %s ADD CONSTRAINT ") {
@@ -472,4 +508,88 @@ func pkAddGuard(fd *ast.FuncDecl) string {
 		}
 	}
 	return res
+}
+
+// depthStop classifies the tail of processTableDepth:
+//
+//	if len(incomplete) != 0 { processTableDepth(...) }                                          StopNever
+//	if len(incomplete) != 0 { if !progressed { placeUnorderedTables(...); return }; processTableDepth(...) }
+//	   with `progressed := false` first, set to true only inside `if processComplete {`,
+//	   and placeUnorderedTables = max depth + 1, names through sort.Strings                     StopNoProgress
+func depthStop(fd, place *ast.FuncDecl) string {
+	if fd == nil || fd.Body == nil || len(fd.Body.List) == 0 {
+		return "StopUnknown"
+	}
+	last, ok := fd.Body.List[len(fd.Body.List)-1].(*ast.IfStmt)
+	if !ok || exprText(last.Cond) != "(len(incompleteTableDepthMap)!=0)" || last.Else != nil {
+		return "StopUnknown"
+	}
+	isRec := func(st ast.Stmt) bool {
+		es, ok := st.(*ast.ExprStmt)
+		if !ok {
+			return false
+		}
+		c, ok := es.X.(*ast.CallExpr)
+		return ok && isIdent(c.Fun, "processTableDepth")
+	}
+	body := last.Body.List
+	if len(body) == 1 && isRec(body[0]) {
+		return "StopNever"
+	}
+	if len(body) != 2 || !isRec(body[1]) || place == nil || place.Body == nil {
+		return "StopUnknown"
+	}
+	guard, ok := body[0].(*ast.IfStmt)
+	if !ok || exprText(guard.Cond) != "!progressed" || guard.Else != nil || len(guard.Body.List) != 2 {
+		return "StopUnknown"
+	}
+	call, ok := guard.Body.List[0].(*ast.ExprStmt)
+	if !ok {
+		return "StopUnknown"
+	}
+	if c, ok := call.X.(*ast.CallExpr); !ok || !isIdent(c.Fun, "placeUnorderedTables") {
+		return "StopUnknown"
+	}
+	if r, ok := guard.Body.List[1].(*ast.ReturnStmt); !ok || len(r.Results) != 0 {
+		return "StopUnknown"
+	}
+	// progressed: declared false first, assigned true exactly once, inside `if processComplete`
+	first, ok := fd.Body.List[0].(*ast.AssignStmt)
+	if !ok || len(first.Lhs) != 1 || !isIdent(first.Lhs[0], "progressed") || !isIdent(first.Rhs[0], "false") {
+		return "StopUnknown"
+	}
+	sets, inside := 0, 0
+	ast.Inspect(fd.Body, func(n ast.Node) bool {
+		if as, ok := n.(*ast.AssignStmt); ok && len(as.Lhs) == 1 && isIdent(as.Lhs[0], "progressed") && as.Tok == token.ASSIGN {
+			sets++
+		}
+		if ifs, ok := n.(*ast.IfStmt); ok && exprText(ifs.Cond) == "processComplete" {
+			for _, st := range ifs.Body.List {
+				if as, ok := st.(*ast.AssignStmt); ok && len(as.Lhs) == 1 && isIdent(as.Lhs[0], "progressed") && isIdent(as.Rhs[0], "true") {
+					inside++
+				}
+			}
+		}
+		return true
+	})
+	if sets != 1 || inside != 1 {
+		return "StopUnknown"
+	}
+	// placeUnorderedTables: `lastDepth = depth + 1` under `depth >= lastDepth`, names sorted with sort.Strings
+	hasMax, hasSort := false, false
+	ast.Inspect(place.Body, func(n ast.Node) bool {
+		if ifs, ok := n.(*ast.IfStmt); ok && exprText(ifs.Cond) == "(depth>=lastDepth)" && len(ifs.Body.List) == 1 {
+			if as, ok := ifs.Body.List[0].(*ast.AssignStmt); ok && exprText(as.Lhs[0]) == "lastDepth" && exprText(as.Rhs[0]) == "(depth+1)" {
+				hasMax = true
+			}
+		}
+		if c, ok := n.(*ast.CallExpr); ok && strings.Join(selChain(c.Fun), ".") == "sort.Strings" {
+			hasSort = true
+		}
+		return true
+	})
+	if hasMax && hasSort {
+		return "StopNoProgress"
+	}
+	return "StopUnknown"
 }
